@@ -59,17 +59,28 @@ def run_marg(shard, ctx):
             tag = ("c05", kind, D, R)
             Sig = objs.spd_batch(D, R, vi, seed, tag, diag=diag)
             mu = objs.vec_batch(D, R, vi, seed, tag)
-            p = objs.mk_pdf(kind, Sig, mu)
-            # identified quadratic of the joint's evaluated function
-            pts, _ = rm.lattice(D)
-            vals = np.asarray(p.evaluate_ln(J(pts)))
-            ident = [rm.identify_quadratic(vals[r], D) for r in range(R)]
+            which = ("fresh", "sliced_neg", "updated", "Sigma+Lambda", "queried") if (vi == 0 and D <= 3) else ("fresh",)
+            for prep, mkp in objs.pdf_variants(kind, Sig, mu, which=which):
+                with ctx.guard("prepare." + prep, dict(prep=prep)) as g:
+                    p = mkp()
+                    # identified quadratic of the joint's evaluated function
+                    pts, _ = rm.lattice(D)
+                    vals = np.asarray(p.evaluate_ln(J(pts)))
+                    ident = [rm.identify_quadratic(vals[r], D) for r in range(R)]
+                if not g.ok:
+                    continue
+                marg_on(ctx, shard, tier, p, ident, kind, D, R, vi, mu, Sig, prep)
+
+
+def marg_on(ctx, shard, tier, p, ident, kind, D, R, vi, mu, Sig, prep):
+    if True:
+        if True:
             for dims in index_lists(D, tier):
-                if not ctx.case(dict(R=R, vi=vi, dims=dims)):
+                if not ctx.case(dict(R=R, vi=vi, dims=dims, prep=prep)):
                     continue
                 N = 2 if R != 2 else 3
                 xs = al.points(N, len(dims), salt=len(dims) + vi)
-                facts = dict(R=R, ndims=len(dims), sorted=dims == sorted(dims))
+                facts = dict(R=R, ndims=len(dims), sorted=dims == sorted(dims), prep=prep)
                 if vi == 0 and R == 2 and dims == list(reversed(range(D))):
                     ctx.sample(dict(shard=shard["id"], op="get_marginal", dims=dims, Sigma=Sig, mu=mu, x=xs))
                 with ctx.guard("get_marginal.call", facts) as g:
